@@ -244,7 +244,8 @@ add(
     "(frame k of a multi-frame file, velocity-direction flag), order parameters (periodic Distance incl. > half a box, Velocity, Distancevel), "
     "interfaces, subcycles, maxlen and direction: first frame = given point; stored order of every frame = order recomputed by the harness "
     "from the frame the path references (own box, own velocity direction); stop rule and success flag; external program gone afterwards; "
-    "non-zero exit raises RuntimeError instead of a truncated path; energies on the right frames; backward propagation retraces forward. Sampled.",
+    "non-zero exit or death by a signal raises RuntimeError instead of a truncated path; energies on the right frames; backward propagation retraces forward. "
+    "ASE and TurtleMD also with real forces (spring / Lennard-Jones): frame k of a run with s MD steps per frame equals MD step k*s of a run with one step per frame, and the backward run retraces. Sampled.",
     "Real MD programs are absent; fakes emit the documented formats. Wall-clock timing of the fakes is real: a verdict that is not reproduced on "
     "immediate re-execution is reported as ':timing-dependent'.",
 )
